@@ -294,6 +294,14 @@ theorem sortDec_perm (dec : List Dec) : (sortDec dec).Perm dec := by
     (List.reverse_perm _).append (List.mergeSort_perm _ _)
   exact h1.trans (List.filter_append_perm _ dec)
 
+/-- the interpreter sorts with the key of this rendering (`sort_expr`'s value, else `sort=`) and then reverses when
+`reverse_expr` is true (or `reverse` is given): `arrange` is exactly these two steps for literal options -/
+theorem arrange_is_sort_then_reverse (env : Env) (o : InOpts) (x : InXOpts) (xs : List Val) (st : St) :
+    arrange env o x xs st =
+      (match sortPart env o x xs st with
+       | (.ok ys, st') => (.ok (applyReverse x.reverse ys), st')
+       | r => r) := rfl
+
 /-- **the elements shown are a permutation of the caller's elements** (nothing lost, nothing shown twice) -/
 theorem arrange_perm (env : Env) (o : InOpts) (x : InXOpts) (xs ys : List Val) (st st' : St)
     (h : arrange env o x xs st = (.ok ys, st')) : ys.Perm xs := by
